@@ -21,6 +21,7 @@ DECLINED = ["'by some stream that schedules its pool' and completion before fina
             "duplication caused by a user pool that hands a unit out twice"]
 ASSUMPTIONS = ["C02 (context switch), C07 (built-in pools)"]
 RULES_DOC = dict(common.SHARED_DOC)
+RULES_DOC["X9"] = common.X9_DOC
 RULES_DOC["X8"] = common.X8_DOC
 RULES_DOC["R11"] = "= C06.R2: a resumed unit is pushed before it stops being counted as blocked (never in flight and unaccounted: a stream may not terminate under it)"
 RULES_DOC["R12"] = "= C07.R1: every queue operation installed for a shared access mode runs under the pool lock (no unit lost or handed out twice)"
@@ -30,6 +31,8 @@ RULES_DOC["R15"] = "= C07.R7: the batch push hands every non-NULL handle to the 
 RULES_DOC["X4"] = common.X4_DOC
 RULES_DOC["R16"] = "work-unit constructors initialise every ABTI_thread field that a revive re-initialises (state, request, function, argument, parent, last stream): descriptors are recycled by the memory pool, so a constructor that leaves `request` alone lets a new unit inherit a stale cancel or migration request"
 RULES_DOC["R18"] = "= C11.R4: yield_to takes the target out of the TARGET's pool: removing from the caller's pool drops another unit that waits there and leaves the target queued for a second start"
+RULES_DOC["R20"] = "= C17.R6: a scan over a scheduler's pools is bounded by the pool count of the SAME scheduler: replacing the main scheduler re-associates the calling unit whichever pool of the old scheduler it lives in (otherwise it is suspended on a pool that is never drained)"
+RULES_DOC["R21"] = "= C19.R2: a timed-out waiter unlinks itself completely (predecessor link and, when it was the tail, the tail pointer): a waiter appended behind a stale tail is unreachable and never woken"
 RULES_DOC["R19"] = "= C13.R4: a unit is migrated only to a stream observed RUNNING under the stream-list lock: pushed to the pool of a joined stream it would never complete"
 RULES_DOC["R17"] = "= C06.R1/R3/R4: a unit that blocks is counted on the pool it belongs to after request handling (a blocked unit whose pool looks idle is lost when the only stream of that pool is joined)"
 RULES_DOC.update({
@@ -595,6 +598,7 @@ def rule_R16(P, rep):
 
 
 def run(P, rep, tier):
+    common.rule_X9(P, rep, fields=[('ABTI_thread', 'request'), ('ABTI_pool', 'num_blocked')])
     common.rule_X8(P, rep)
     common.rule_X4(P, rep)
     common.run_shared(P, rep, which=("X1",))
@@ -617,3 +621,6 @@ def run(P, rep, tier):
     from . import C11, C13
     common.borrow(rep, P, C11.rule_R4, "R18")
     common.borrow(rep, P, C13.rule_R4, "R19")
+    from . import C17, C19
+    common.borrow(rep, P, C17.rule_R6, "R20")
+    common.borrow(rep, P, C19.rule_R2, "R21")
